@@ -58,7 +58,7 @@ impl Cryptor {
         ensures
             //@ob C13 Cryptor::new.key-is-the-protocol-key-of-the-secret
             r matches Ok(c) ==> c.key.alg@ == ringspec::ALG_CHACHA20_POLY1305()
-                && exists|salt_bytes: Seq<u8>| c.key.bytes@ == #[trigger] ringspec::kdf_spec(ringspec::ALG_PBKDF2_HMAC_SHA256(), 600000, salt_bytes, secret.0@, 32),
+                && c.key.bytes@ == protocol_key(as_ref_bytes(&salt), secret.0@),
 {
         Ok(Cryptor {
             key: Self::derive_key(salt, secret)?,
@@ -71,7 +71,7 @@ impl Cryptor {
         ensures
             //@ob C13 derive_key.PBKDF2-HMAC-SHA256-with-600000-iterations-32-bytes-for-ChaCha20-Poly1305
             r matches Ok(k) ==> k.alg@ == ringspec::ALG_CHACHA20_POLY1305(),
-            r matches Ok(k) ==> exists|salt_bytes: Seq<u8>| k.bytes@ == #[trigger] ringspec::kdf_spec(ringspec::ALG_PBKDF2_HMAC_SHA256(), 600000, salt_bytes, secret.0@, 32),
+            r matches Ok(k) ==> k.bytes@ == protocol_key(as_ref_bytes(&salt), secret.0@),
 {
         let mut key_bytes = vec![0u8; aead::CHACHA20_POLY1305.key_len()];
         pbkdf2::derive(
@@ -81,10 +81,8 @@ impl Cryptor {
             secret.as_ref(),
             &mut key_bytes,
         );
-        let ghost sb = choose|sb: Seq<u8>| key_bytes@ == #[trigger] ringspec::kdf_spec(256, 600000, sb, secret.0@, 32);
         let unbound_key = aead::UnboundKey::new(&aead::CHACHA20_POLY1305, &key_bytes)
             .map_err(opaque_anyhow)?;
-        proof { assert(unbound_key.bytes@ == ringspec::kdf_spec(ringspec::ALG_PBKDF2_HMAC_SHA256(), 600000, sb, secret.0@, 32)); }
         Ok(aead::LessSafeKey::new(unbound_key))
     }
 //@end
